@@ -24,8 +24,20 @@ func retRun(in *Sx) *Sx {
 		switch q.List[0].Atom {
 		case "matched":
 			ms := []*Sx{}
-			for _, m := range st.GetMatchedMessages(q.List[1].Str()) {
+			got := st.GetMatchedMessages(q.List[1].Str())
+			for _, m := range got {
 				ms = append(ms, sxMsg(m))
+			}
+			// callers own what they get (subscribeHandler rewrites QoS/flags of the returned
+			// messages): scribbling on it must not change what the store keeps
+			for _, m := range got {
+				m.QoS = 0
+				m.Retained = !m.Retained
+				m.Dup = true
+				m.PacketID = 77
+				if len(m.Payload) > 0 {
+					m.Payload[0] ^= 0xff
+				}
 			}
 			res = append(res, L(sortSx(ms)...))
 		case "get":
@@ -34,6 +46,11 @@ func retRun(in *Sx) *Sx {
 				res = append(res, L())
 			} else {
 				res = append(res, L(sxMsg(m)))
+				m.QoS = 0
+				m.Topic = "scribbled"
+				if len(m.Payload) > 0 {
+					m.Payload[0] ^= 0xff
+				}
 			}
 		case "all":
 			ms := []*Sx{}
